@@ -117,6 +117,8 @@ type reader interface {
 	port() int
 	asyncRead(b []byte, cb func(err error, n int, from string))
 	asyncWrite(b []byte, to *rawUDP, cb func(err error))
+	syncRead(b []byte) (n int, from string, err error)
+	syncWrite(b []byte, to *rawUDP) error
 	close()
 	name() string
 }
@@ -136,6 +138,17 @@ func (r pcReader) asyncRead(b []byte, cb func(error, int, string)) {
 }
 func (r pcReader) asyncWrite(b []byte, to *rawUDP, cb func(error)) {
 	r.pc.AsyncWriteTo(b, &net.UDPAddr{IP: net.IPv4(to.ip[0], to.ip[1], to.ip[2], to.ip[3]).To4(), Port: to.port}, cb)
+}
+func (r pcReader) syncRead(b []byte) (int, string, error) {
+	n, a, err := r.pc.ReadFrom(b)
+	s := ""
+	if a != nil {
+		s = a.String()
+	}
+	return n, s, err
+}
+func (r pcReader) syncWrite(b []byte, to *rawUDP) error {
+	return r.pc.WriteTo(b, &net.UDPAddr{IP: net.IPv4(to.ip[0], to.ip[1], to.ip[2], to.ip[3]).To4(), Port: to.port})
 }
 func (r pcReader) close()       { _ = r.pc.Close() }
 func (r pcReader) name() string { return "PacketConn" }
@@ -160,6 +173,21 @@ func (r mpReader) asyncWrite(b []byte, to *rawUDP, cb func(error)) {
 		}
 		cb(err)
 	})
+}
+func (r mpReader) syncRead(b []byte) (int, string, error) {
+	n, a, err := r.mp.Read(b)
+	s := ""
+	if a.IsValid() {
+		s = a.String()
+	}
+	return n, s, err
+}
+func (r mpReader) syncWrite(b []byte, to *rawUDP) error {
+	n, err := r.mp.Write(b, netip.AddrPortFrom(netip.AddrFrom4(to.ip), uint16(to.port)))
+	if err == nil && n != len(b) {
+		err = fmt.Errorf("Write reported %d of %d bytes", n, len(b))
+	}
+	return err
 }
 func (r mpReader) close()       { _ = r.mp.Close() }
 func (r mpReader) name() string { return "UDPPeer" }
@@ -301,6 +329,37 @@ func TestC12_DatagramBoundaries(t *testing.T) {
 				}
 				if !reading {
 					bufLen = rapid.SampledFrom([]int{1, 7, 100, 1372, 1500, 65535}).Draw(rt, "buf2")
+					if rapid.IntRange(0, 3).Draw(rt, "syncRead") == 0 && sysx.WaitReadable(rd.rawFd(), 0) {
+						// the blocking API on a queued datagram
+						buf := make([]byte, bufLen)
+						n, from, err := rd.syncRead(buf)
+						if err != nil {
+							problem = fmt.Sprintf("synchronous read failed: %v", err)
+							break
+						}
+						var src *rawUDP
+						for _, s := range senders {
+							if s.addrString() == from {
+								src = s
+							}
+						}
+						if src == nil || len(queues[src]) == 0 {
+							problem = fmt.Sprintf("synchronous read reports sender %q with nothing outstanding from it", from)
+							break
+						}
+						want := queues[src][0]
+						queues[src] = queues[src][1:]
+						wn := len(want)
+						if wn > len(buf) {
+							wn = len(buf)
+							truncated = true
+						}
+						if n != wn || !bytes.Equal(buf[:n], want[:wn]) {
+							problem = fmt.Sprintf("synchronous read into a %d-byte buffer returned n=%d %x.., the next datagram of %s has %d bytes %x..", len(buf), n, head(buf[:max(n, 0)]), from, len(want), head(want))
+						}
+						trace = append(trace, fmt.Sprintf("syncread(buf=%d)=%d", len(buf), n))
+						continue
+					}
 					issueRead()
 				}
 				if reading {
@@ -322,7 +381,12 @@ func TestC12_DatagramBoundaries(t *testing.T) {
 				p := payload(tag, rapid.OneOf(rapid.IntRange(1, 1372), rapid.SampledFrom([]int{1, 1372, 9000})).Draw(rt, "wlen"))
 				calls := 0
 				var werr error
-				rd.asyncWrite(p, to, func(err error) { calls++; werr = err })
+				if rapid.Bool().Draw(rt, "syncWrite") {
+					werr = rd.syncWrite(p, to)
+					calls = 1
+				} else {
+					rd.asyncWrite(p, to, func(err error) { calls++; werr = err })
+				}
 				for i := 0; i < 20 && calls == 0; i++ {
 					_, _ = ioc.PollOne()
 				}
